@@ -24,7 +24,7 @@ Counts == {1, 2, 4}
 \* report's measurement for every count.  The caller's endorsement is the one validated against, so
 \* the table's never decides (SevValidate only extracts from the attestation when none is supplied).
 SnpRows == {r \in [tech : {"snp"}, listed : SUBSET Counts, svsm : BOOLEAN, short2 : BOOLEAN,
-                   meas : {"m1", "m2", "m4", "ms", "n2", "un", "short"}, req : {0, 1, 2, 4, 8},
+                   meas : {"m1", "m2", "m4", "ms", "n2", "un", "short", "nomeas"}, req : {0, 1, 2, 4, 8},
                    \* expected firmware digest: not given, equal, different, or given while the endorsement
                    \* carries no digest at all ("absent": nothing endorsed equals the expectation)
                    digest : {"none", "eq", "diff", "absent"},
@@ -34,6 +34,9 @@ SnpRows == {r \in [tech : {"snp"}, listed : SUBSET Counts, svsm : BOOLEAN, short
                    unspec : BOOLEAN] :
               /\ (r.table = "other" => r.entry \in {"SevValidate", "cli_sev"} /\ r.digest = "none")
               /\ (r.digest = "absent" => r.entry \in {"EndorsementProto", "SNPFunc"})
+              \* "nomeas": a report that carries no measurement at all -- a class of attestations, so only of
+              \* the entry points that take one (for verify.SNP "no measurement" means none to compare)
+              /\ (r.meas = "nomeas" => r.entry \in {"SNPFunc", "SevValidate", "cli_sev"})
               /\ (r.unspec => r.entry = "cli_sev" /\ r.table = "none" /\ r.digest = "none")}
 TdxIds == {"d0", "r16", "r16e", "r32"}
 RamOf(id) == IF id = "d0" THEN 0 ELSE IF id = "r32" THEN 32 ELSE 16
@@ -68,7 +71,7 @@ VerifySNP(r, req) ==
 
 \* ---- SevValidate: SevPolicy(LaunchVmsas) + go-sev-guest measurement check + validator closure ----
 SevValidate(r, req) ==
-  /\ r.meas # "short"                                   \* validator's length gate
+  /\ r.meas \notin {"short", "nomeas"}                  \* validator's length gate
   /\ req # 0 => /\ req \in r.listed                      \* SevPolicy needs a table entry for the count
                 /\ Value(r, req) # "" /\ Value(r, req) = r.meas   \* policy measurement (an empty entry is refused)
   /\ VerifySNP(r, req)
@@ -77,7 +80,7 @@ SnpAccept(r) ==
   LET digestOK == r.digest \notin {"diff", "absent"} IN
   CASE r.entry = "SNP" -> VerifySNP(r, r.req)
     [] r.entry = "EndorsementProto" -> digestOK /\ VerifySNP(r, r.req)
-    [] r.entry = "SNPFunc" -> r.meas # "short" /\ digestOK /\ VerifySNP(r, r.req)
+    [] r.entry = "SNPFunc" -> r.meas \notin {"short", "nomeas"} /\ digestOK /\ VerifySNP(r, r.req)
     [] r.entry = "SevValidate" -> SevValidate(r, r.req)
     [] r.entry = "cli_sev" -> SevValidate(r, IF Design = "legacy_cli" THEN 0 ELSE r.req)
 
